@@ -23,7 +23,7 @@ def shards(tier, seed):
     from pyoda_time import DateTimeZoneProviders
     ids = list(DateTimeZoneProviders.tzdb.ids)
     k = 16 if tier == "quick" else 64
-    return [{"name": f"zones:{i}", "ids": ids[i::k]} for i in range(k)]
+    return [{"name": f"zones:{i}", "ids": ids[i::k]} for i in range(k)] + [{"name": f"synthetic:{i}", "synthetic": 40 if tier == "quick" else 600} for i in range(2 if tier == "quick" else 6)]
 
 
 def oracle(log, L):
@@ -53,6 +53,25 @@ def gap_neighbours(log, L):
     return A, B
 
 
+def within_one_transition(log, L):
+    """True when every interval that matters for local value L is the interval containing the instant numerically equal to L, or a direct
+    neighbour of it: all matches lie there and, for a skipped value, the gap touches it.  (The mapping algorithm, as upstream, looks no further;
+    zones whose transitions are closer together than their offsets leave this regime.)"""
+    g = None
+    for i, r in enumerate(log):
+        s_ = -BIG if r[0] is None else r[0]; e_ = BIG if r[1] is None else r[1]
+        if s_ <= L < e_: g = i
+    if g is None: return False
+    m = [i for i, r in enumerate(log) if (-BIG if r[0] is None else r[0]) <= L - r[2] * NS < (BIG if r[1] is None else r[1])]
+    if len(m) > 2 or any(abs(i - g) > 1 for i in m) or (len(m) == 2 and m[1] != m[0] + 1): return False
+    if m: return True
+    A, B = gap_neighbours(log, L)
+    if A is None or B is None: return False
+    ia, ib = log.index(A), log.index(B)
+    # ... and the interval after the gap is longer than the gap (the forward-shifted value still lies inside it)
+    return ib == ia + 1 and g in (ia, ib) and (B[1] is None or L - A[2] * NS < B[1])
+
+
 class LocalWindow:
     """Slice of the log sufficient for local values near one instant (intervals within +-3 days)."""
 
@@ -67,7 +86,7 @@ class LocalWindow:
         return self.log[max(0, lo):hi]
 
 
-def check_local(ctx, zone, zid, W, L, cal, tag):
+def check_local(ctx, zone, zid, W, L, cal, tag, kp=""):
     from pyoda_time import AmbiguousTimeError, Instant, LocalTime, SkippedTimeError, ZonedDateTime
     from pyoda_time.time_zones import Resolvers
     from vf import gen, zonewalk
@@ -84,7 +103,7 @@ def check_local(ctx, zone, zid, W, L, cal, tag):
     ctx.counters["gaps" if not exp else ("overlaps" if len(exp) == 2 else "single")] += 1
 
     def V(k, what, obs=None, e=None):
-        ctx.V(f"C05:{k}", f"{zid} local {L} ({ldt!r}, {cal.id}): {what}", case, obs, e)
+        ctx.V(f"C05:{k}" if not kp else "C05:beyond-adjacent-interval", f"{zid} local {L} ({ldt!r}, {cal.id}): [{k}] {what}", case, obs, e)
     representable = all(gen.INST_MIN_NS <= h[0] <= gen.INST_MAX_NS for h in exp)
     near_edge = not (gen.INST_MIN_NS + 2 * DAY < L < gen.INST_MAX_NS - 2 * DAY)
     try:
@@ -210,7 +229,7 @@ def check_local(ctx, zone, zid, W, L, cal, tag):
                 ctx.exc(ex)
 
 
-def check_start_of_day(ctx, zone, zid, W, d, cal):
+def check_start_of_day(ctx, zone, zid, W, d, cal, kp=""):
     from pyoda_time import SkippedTimeError
     from vf import gen
     lo, hi = gen.cal_range(cal.id)
@@ -230,15 +249,84 @@ def check_start_of_day(ctx, zone, zid, W, d, cal):
         r = zone.at_start_of_day(date)
         rn = gen.inst_ns(r.to_instant())
         if best is None:
-            ctx.V("C05:start-of-day-returned-for-skipped-day", f"{zid} day {d}: at_start_of_day returned {rn} although no instant carries that local date", case, rn)
+            ctx.V(f"C05:{kp}start-of-day-returned-for-skipped-day", f"{zid} day {d}: at_start_of_day returned {rn} although no instant carries that local date", case, rn)
         elif rn != best or r.date != date:
-            ctx.V("C05:start-of-day", f"{zid} day {d} ({cal.id}): at_start_of_day = {rn} ({r.local_date_time!r}); earliest instant with that local date is {best}", case, rn, best)
+            ctx.V(f"C05:{kp}start-of-day", f"{zid} day {d} ({cal.id}): at_start_of_day = {rn} ({r.local_date_time!r}); earliest instant with that local date is {best}", case, rn, best)
         r2 = date.at_start_of_day_in_zone(zone)
         if gen.inst_ns(r2.to_instant()) != rn:
-            ctx.V("C05:at_start_of_day_in_zone", f"{zid} day {d}: LocalDate.at_start_of_day_in_zone differs", case)
+            ctx.V(f"C05:{kp}at_start_of_day_in_zone", f"{zid} day {d}: LocalDate.at_start_of_day_in_zone differs", case)
     except SkippedTimeError:
         if best is not None:
-            ctx.V("C05:start-of-day-skipped", f"{zid} day {d}: at_start_of_day raised SkippedTimeError although instant {best} carries that date", case, None, best)
+            ctx.V(f"C05:{kp}start-of-day-skipped", f"{zid} day {d}: at_start_of_day raised SkippedTimeError although instant {best} carries that date", case, None, best)
+
+
+def run_synthetic(ctx, n_zones):
+    """User-defined zones (a DateTimeZone subclass answering from an explicit interval list): interval lengths from 1 ns to months, so that the
+    interval next to a gap / overlap can be much SHORTER than the jump, name-only changes, date-line jumps, sub-minute offsets."""
+    from pyoda_time import DateTimeZone, Offset
+    from pyoda_time.time_zones import ZoneInterval
+    from vf import gen
+    rng = ctx.rng
+
+    class ListZone(DateTimeZone):
+        def __init__(self, id_, intervals):
+            offs = [i.wall_offset for i in intervals]
+            super().__init__(id_, False, min(offs), max(offs))
+            self.intervals = intervals
+            self.starts = [(-BIG if not i.has_start else gen.inst_ns(i.start)) for i in intervals]
+
+        def get_zone_interval(self, instant):
+            import bisect
+            return self.intervals[bisect.bisect_right(self.starts, gen.inst_ns(instant)) - 1]
+
+    LENS = [1, NS, 60 * NS, 30 * 60 * NS, 3600 * NS, 90 * 60 * NS, 3 * 3600 * NS, DAY, 40 * DAY, 200 * DAY]
+    JUMPS = [1800, -1800, 3600, -3600, 7200, -7200, 3 * 3600, -3 * 3600, 0, 86400, -86400, 45 * 60, 1, -1, 37]
+    cals = gen.calendars(); iso = gen.ISO
+    for zi_ in range(n_zones):
+        k = rng.randint(3, 8)
+        t = rng.randint(-10**18, 3 * 10**18) // NS * NS
+        cuts = []
+        for _ in range(k - 1):
+            t += rng.choice(LENS) if rng.random() < 0.7 else rng.randint(1, 400 * DAY)
+            cuts.append(t)
+        off = rng.choice([0, 3600, -5 * 3600, 19800, 12 * 3600, -11 * 3600, rng.randint(-40000, 40000)])
+        offs = [off]
+        for _ in range(k - 1):
+            nxt = offs[-1] + rng.choice(JUMPS)
+            if not -64800 <= nxt <= 64800: nxt = offs[-1] - (nxt - offs[-1])
+            offs.append(max(-64800, min(64800, nxt)))
+        bounds = [None] + cuts + [None]
+        zid = f"Synthetic/{zi_}"
+        log = []; ivs = []
+        for i in range(k):
+            sav = rng.choice([0, 0, 3600]) if abs(offs[i]) < 60000 else 0
+            nm = f"S{i}" if rng.random() < 0.8 else "SAME"
+            ivs.append(ZoneInterval(name=nm, start=None if bounds[i] is None else gen.ns_inst(bounds[i]), end=None if bounds[i + 1] is None else gen.ns_inst(bounds[i + 1]),
+                                    wall_offset=Offset.from_seconds(offs[i]), savings=Offset.from_seconds(sav)))
+            log.append((bounds[i], bounds[i + 1], offs[i], sav, offs[i] - sav, nm))
+        zone = ListZone(zid, ivs)
+        W = LocalWindow(log)
+        ctx.count("synthetic_zones")
+        for i in range(1, k):
+            tt = cuts[i - 1]; wb, wa = offs[i - 1], offs[i]; jump = abs(wa - wb)
+            for base in (tt + wb * NS, tt + wa * NS):
+                for dl in (-DAY, -3600 * NS, -NS, -1, 0, 1, NS, 3600 * NS, DAY, jump * NS - 1, jump * NS, -jump * NS, jump * NS // 2, (jump * NS * 3) // 4, jump * NS // 8):
+                    L = base + dl
+                    sub = W.near(L)
+                    if len(oracle(sub, L)) > 2:
+                        ctx.count("note:synthetic-local-matches-more-than-two-intervals"); continue    # outside what a 0/1/2 mapping can express
+                    kp = "" if within_one_transition(log, L) else "beyond-adjacent-interval:"
+                    ctx.count("synthetic_locals_within_one_transition" if not kp else "synthetic_locals_beyond_adjacent_interval")
+                    ctx.key(("synthetic", min(jump, 90000), (wa > wb) - (wa < wb), (cuts[i - 1] - (cuts[i - 2] if i > 1 else -BIG)) < jump * NS, dl if abs(dl) <= NS else (dl > 0)))
+                    check_local(ctx, zone, zid, W, L, iso if rng.random() < 0.85 else rng.choice(cals), "full", kp)
+            for dd in (-1, 0, 1):
+                d_ = (tt + wa * NS) // DAY + dd
+                # the start of a day is found through the mapping of its midnight and, when that is skipped, the interval after the gap
+                near_ = [c for j, c in enumerate(cuts) if c + min(offs[j], offs[j + 1]) * NS < (d_ + 2) * DAY and c + max(offs[j], offs[j + 1]) * NS >= (d_ - 1) * DAY]
+                if len(near_) > 1:
+                    ctx.count("note:synthetic-day-with-several-transitions-not-judged"); continue   # "earliest instant of the date" and "midnight if it exists" can disagree there
+                check_start_of_day(ctx, zone, zid, W, d_, iso)
+    ctx.sample({"kind": "synthetic", "zones": n_zones})
 
 
 def run(ctx, shard):
@@ -246,6 +334,8 @@ def run(ctx, shard):
     from vf import gen, zonewalk
     for k in REQUIRED["any"] + ["single"]:
         ctx.counters.setdefault(k, 0)
+    if "synthetic" in shard:
+        run_synthetic(ctx, shard["synthetic"]); return
     rng = ctx.rng
     tz = DateTimeZoneProviders.tzdb
     cals = gen.calendars()
